@@ -28,7 +28,10 @@ STUBS = ["MDAnalysis AnalysisFromFunction -> direct loop over stub frames; cente
          "_get_quaternion_assignments -> given index array (rotation recovery: eigen-decomposition + SVD, outside)", "pandas describe/print -> no-op",
          "sqrt -> fresh variable with monotonicity axioms; non-constant division purified (q*den = num)"]
 ASSUMPTIONS = ["direction vectors have unit norm, the centre of mass is not the origin", "float modelled by the reals", "radii strictly increasing, positive"]
-OUTSIDE = ["the rotation index b and therefore the round trip pseudotrajectory -> 0,1,2,...", "n_t = 1", "sizes beyond the bound"]
+OUTSIDE = ["the recovery of the rotation from atom coordinates (inertia tensor, eigen-decomposition, handedness fix-up) and therefore the round trip pseudotrajectory -> 0,1,2,...", "n_t = 1", "sizes beyond the bound"]
+FUNCTIONS += ["AssignmentTool._get_quaternion_assignments, _get_rotation_matrices, _complex_mdanalysis_func (frame bookkeeping of the rotation index: `frames` shapes)"]
+STUBS += ["`frames` shapes: principal_axes() -> per-frame contract stand-in (molecule 2 sits in a tilted grid rotation), _determine_positive_directions -> (1,1,1), "
+          "multiprocessing.Pool -> serial map; scipy Rotation runs for real on the concrete orientations"]
 FUNCTIONS += ["AssignmentTool.__init__ (grid decomposition, molecule selection, centring transformation, stop) -- two tools in one process",
               "AssignmentTool._determine_second_molecule", "molgri.space.fullgrid.from_full_array_to_o_b_t (as called by the tool)"]
 
@@ -36,7 +39,8 @@ FUNCTIONS += ["AssignmentTool.__init__ (grid decomposition, molecule selection, 
 def bounds(tier):
     return {"radial": {"n_t": [2, 3, 4] if tier == "quick" else [2, 3, 4, 5, 6], "include_outliers": [False, True]},
             "direction": {"n_o": [2, 3] if tier == "quick" else [2, 3, 4], "metric": ["euclidean", "cos"]},
-            "composition": {"n_t": 3, "n_o": 2, "n_b": [1, 3], "frames": "1-2"},
+            "composition": {"n_t": 3, "n_o": 2, "n_b": [1, 3], "frames": "1-2",
+                            "frame bookkeeping of the rotation index": "n_b = 3, 2 frames (thorough: 3), centres of mass symbolic, per-frame orientation concrete"},
             "tools_history": {"two AssignmentTool objects in one process": "n_t = 2, n_o = 1, n_b in {1, 2} (thorough: + n_o = 2, n_t = 3); radii of both grids symbolic"}}
 
 
@@ -60,6 +64,11 @@ def shapes(tier, seed):
         for inc in (False, True):
             # n_t != n_o != n_b so that a swapped stride is visible
             out.append({"kind": "compose", "n_t": 3, "n_o": 2, "n_b": n_b, "frames": 2 if (n_b == 3 and not inc) else 1, "include_outliers": inc})
+    # the rotation index through the tool's own frame bookkeeping (which frame is sought / evaluated / where its result lands)
+    out.append({"kind": "compose", "rotation": "frames", "n_t": 2, "n_o": 1, "n_b": 3, "frames": 2, "include_outliers": False})
+    out.append({"kind": "compose", "rotation": "frames", "n_t": 2, "n_o": 2, "n_b": 3, "frames": 1, "include_outliers": True})
+    if tier == "thorough":
+        out.append({"kind": "compose", "rotation": "frames", "n_t": 2, "n_o": 1, "n_b": 3, "frames": 3, "include_outliers": False})
     return out
 
 
@@ -309,6 +318,14 @@ class FakeTraj:
     def __len__(self):
         return self.n
 
+    def __getitem__(self, i):
+        """trajectory[i] seeks to frame i (MDAnalysis: indexing a reader loads that frame)"""
+        i = int(i)
+        if not -self.n <= i < self.n:
+            raise IndexError(f"frame {i} of a trajectory with {self.n} frames")
+        self.frame = i % self.n
+        return self
+
 
 class FakeAnalysis:
     """AnalysisFromFunction(func, trajectory, atomgroup).run(stop=..).results['timeseries']"""
@@ -335,16 +352,24 @@ class FakeAnalysis:
 
 
 class FrameAG:
-    def __init__(self, traj, coms):
-        self.traj, self.coms = traj, coms
+    def __init__(self, traj, coms, axes=None):
+        self.traj, self.coms, self.axes = traj, coms, axes
+        self.universe = None
+        self.atoms = self
 
     def center_of_mass(self, **k):
         return self.coms[self.traj.frame].copy()
+
+    def principal_axes(self, **k):
+        """contract stand-in for the eigen-decomposition of the inertia tensor (LAPACK, outside): the principal axes (rows) of the
+        rigid second molecule IN THE FRAME THE TRAJECTORY IS CURRENTLY AT"""
+        return np.array(self.axes[self.traj.frame], dtype=float)
 
 
 class FakeUniverse:
     def __init__(self, traj, ag):
         self.trajectory, self._ag = traj, ag
+        ag.universe = self
 
     def select_atoms(self, sel):
         return self._ag
@@ -359,6 +384,62 @@ def _rotation_stub(per_frame):
             return per_frame
         return np.asarray(per_frame)[[int(i) for i in np.asarray(sel).reshape(-1)]]
     return stub
+
+
+class SerialPool:
+    """multiprocessing.Pool(k) by its documented contract: map(f, xs) == [f(x) for x in xs], in order"""
+    def __init__(self, *a, **k):
+        pass
+
+    def __enter__(self):
+        return self
+
+    def __exit__(self, *a):
+        return False
+
+    def map(self, f, xs, chunksize=None):
+        return [f(x) for x in xs]
+
+    def imap(self, f, xs, chunksize=None):
+        return iter([f(x) for x in xs])
+
+    def starmap(self, f, xs, chunksize=None):
+        return [f(*x) for x in xs]
+
+    def close(self):
+        pass
+
+    def join(self):
+        pass
+
+
+class RefAxes:
+    """reference structure of molecule 2: principal axes = coordinate axes"""
+    def __init__(self):
+        self.atoms = self
+
+    def principal_axes(self, **k):
+        return np.eye(3)
+
+
+# rotation grid of the `frames` variant of compose: identity and the half turns about x and y (scalar-last quaternions)
+ROT_Q = np.array([[0.0, 0.0, 0.0, 1.0], [1.0, 0.0, 0.0, 0.0], [0.0, 1.0, 0.0, 0.0]])
+ROT_M = [np.diag([1.0, 1.0, 1.0]), np.diag([1.0, -1.0, -1.0]), np.diag([-1.0, 1.0, -1.0])]
+
+
+def _rotation_bookkeeping(at, traj, coms, bstub):
+    """`frames` variant: the REAL _get_quaternion_assignments / _get_rotation_matrices / _complex_mdanalysis_func run (which frame is
+    sought, which frames are evaluated, in which order the results come back, argmin over the rotation grid); below them the
+    eigen-decomposition is a per-frame contract stand-in (molecule 2 sits in frame f exactly in grid rotation bstub[f], tilted by a
+    small generic rotation so that the nearest grid rotation is unique), the handedness fix-up is the identity, Pool is serial."""
+    import numpy as _np
+    from scipy.spatial.transform import Rotation as _R
+    tilt = _R.from_rotvec([0.05, -0.03, 0.04]).as_matrix()
+    axes = [(tilt @ ROT_M[int(b)]).T for b in bstub]          # rows = principal axes; the code transposes
+    at.trajectory_universe = FakeUniverse(traj, FrameAG(traj, coms, axes))
+    at.reference_universe = RefAxes()
+    at._determine_positive_directions = lambda universe: _np.array([1.0, 1.0, 1.0])
+    return at
 
 
 class NoDescribe:
@@ -624,6 +705,7 @@ def run_compose(shape):
     # axis-aligned direction grid (concrete): keeps the direction decision linear here; the symbolic-direction case is `direction`
     o = np.array([[0.0, 0.0, 1.0], [0.0, 0.0, -1.0]])[:n_o]
     bstub = np.array([(f * 2 + 1) % n_b for f in range(nf)])
+    frames_variant = shape.get("rotation") == "frames"
     eng = Engine()
     eng.decide_timeout_ms = 2000
     prover = Prover(timeout_ms=20000, budget_s=600)
@@ -632,13 +714,17 @@ def run_compose(shape):
     proxy = NPProxy()
 
     def body():
-        with bound(T, np=proxy, print=noprint, cdist=fcdist, AnalysisFromFunction=FakeAnalysis, pd=PdStub), bound(U, np=proxy):
-            at = make_tool(T, t_array=sarr([SR(x) for x in r]), o_array=o, b_array=np.zeros((n_b, 4)), include_outliers=inc, cartesian_grid=True)
+        with bound(T, np=proxy, print=noprint, cdist=fcdist, AnalysisFromFunction=FakeAnalysis, pd=PdStub, Pool=SerialPool), bound(U, np=proxy):
+            at = make_tool(T, t_array=sarr([SR(x) for x in r]), o_array=o, b_array=ROT_Q[:n_b].copy() if frames_variant else np.zeros((n_b, 4)),
+                           include_outliers=inc, cartesian_grid=True)
             traj = FakeTraj(nf)
-            ag = FrameAG(traj, [sarr([SR(x) for x in cf]) for cf in C])
-            at.trajectory_universe = FakeUniverse(traj, ag)      # the frames of this run (centre of mass per frame symbolic)
+            coms = [sarr([SR(x) for x in cf]) for cf in C]
             at.stop = nf
-            at._get_quaternion_assignments = _rotation_stub(bstub)
+            if frames_variant:
+                _rotation_bookkeeping(at, traj, coms, bstub)
+            else:
+                at.trajectory_universe = FakeUniverse(traj, FrameAG(traj, coms))      # the frames of this run (centre of mass per frame symbolic)
+                at._get_quaternion_assignments = _rotation_stub(bstub)
             return at.get_full_assignments()
 
     Rb, _, _, _, _ = position_spec(1, n_t, [z3.RealVal(1)], {}, {}, r, zero=z3.RealVal(0))
@@ -672,7 +758,8 @@ def run_compose(shape):
             acc.structural(f"index_is_integral[{f}]", float(v) == idx and 0 <= idx < n_t * n_o * n_b, detail=v)
             pos, b = divmod(idx, n_b)
             t, oi = divmod(pos, n_o)
-            acc.structural(f"rotation_index_passed_through[{f}]", b == int(bstub[f]), detail=(b, int(bstub[f])))
+            acc.structural(f"rotation_index_passed_through[{f}]", b == int(bstub[f]), detail=(b, int(bstub[f])),
+                           cex=None if b == int(bstub[f]) else {"model": _path_model(path)})
             lo = Rb[t - 1] if t > 0 else z3.RealVal(0)
             shell = z3.And(d >= lo, d <= Rb[t]) if (not inc or t < n_t - 1) else d >= lo
             direction = (C[f][2] > 0) if oi == 0 else (C[f][2] < 0)
@@ -798,38 +885,50 @@ def replay(cex):
         return {"reproduced": bool(bad), "detail": str(bad[:2])}
     # compose: real AssignmentTool methods with the same stubs, concrete frames
     n_t, n_o, n_b, nf, inc = s["n_t"], s["n_o"], s["n_b"], s["frames"], s["include_outliers"]
-    r = np.array([1.0, 2.0, 3.5][:n_t])
-    Rb = np.concatenate([(r[:-1] + r[1:]) / 2, [r[-1] + (r[-1] - r[-2]) / 2]])
+    frames_variant = s.get("rotation") == "frames"
+    r0 = np.array([1.0, 2.0, 3.5][:n_t])
     o = np.array([[0.0, 0.0, 1.0], [0.0, 0.0, -1.0]])[:n_o]
     bstub = np.array([(f * 2 + 1) % n_b for f in range(nf)])
-    import molgri.space.utils as U
+    trials = []
+    rm = [fval(model, f"r{k}", None) for k in range(n_t)]
+    cm = [[fval(model, f"c{f}_{k}", None) for k in range(3)] for f in range(nf)]
+    if all(x is not None for x in rm) and all(x is not None for c in cm for x in c) and rm[0] > 0 and all(b_ > a_ for a_, b_ in zip(rm, rm[1:])):
+        trials.append((np.array(rm, dtype=float), [np.array(c, dtype=float) for c in cm]))      # the solver's model first
     for trial in range(60):
-        coms = [rng.normal(size=3) * rng.uniform(0.2, 3.5) for _ in range(nf)]
+        trials.append((r0, [rng.normal(size=3) * rng.uniform(0.2, 3.5) for _ in range(nf)]))
+    for r, coms in trials:
+        Rb = np.concatenate([(r[:-1] + r[1:]) / 2, [r[-1] + (r[-1] - r[-2]) / 2]])
         if any(abs(c[2]) < 1e-6 or min(abs(np.linalg.norm(c) - Rb)) < 1e-6 for c in coms):
             continue
-        at = make_tool(T, t_array=r, o_array=o, b_array=np.zeros((n_b, 4)), include_outliers=inc, cartesian_grid=True, real=True)
+        at = make_tool(T, t_array=r, o_array=o, b_array=ROT_Q[:n_b].copy() if frames_variant else np.zeros((n_b, 4)), include_outliers=inc,
+                       cartesian_grid=True, real=True)
         traj = FakeTraj(nf)
-        at.trajectory_universe = FakeUniverse(traj, FrameAG(traj, [np.asarray(c) for c in coms]))
         at.stop = nf
-        at._get_quaternion_assignments = _rotation_stub(bstub)
-        old = (T.AnalysisFromFunction,)
-        T.AnalysisFromFunction = FakeAnalysis
+        if frames_variant:
+            _rotation_bookkeeping(at, traj, [np.asarray(c) for c in coms], bstub)
+        else:
+            at.trajectory_universe = FakeUniverse(traj, FrameAG(traj, [np.asarray(c) for c in coms]))
+            at._get_quaternion_assignments = _rotation_stub(bstub)
+        old = (T.AnalysisFromFunction, T.Pool)
+        T.AnalysisFromFunction, T.Pool = FakeAnalysis, SerialPool
         try:
             with contextlib.redirect_stdout(io.StringIO()):
                 got = np.asarray(at.get_full_assignments(), dtype=float).reshape(-1)
         except Exception as e:  # noqa: BLE001
-            T.AnalysisFromFunction = old[0]
             return {"reproduced": True, "detail": f"raised {e!r}"}
-        T.AnalysisFromFunction = old[0]
+        finally:
+            T.AnalysisFromFunction, T.Pool = old
+        if len(got) != nf:
+            return {"reproduced": True, "detail": f"{len(got)} indices for {nf} frames"}
         for f, c in enumerate(coms):
             d = np.linalg.norm(c)
             if d > Rb[-1] and not inc:
                 exp = float("nan")
             else:
                 t = int(min(np.searchsorted(Rb, d), n_t - 1))
-                exp = (t * n_o + (0 if c[2] > 0 else 1)) * n_b + bstub[f]
+                exp = (t * n_o + (0 if (c[2] > 0 or n_o == 1) else 1)) * n_b + bstub[f]
             if (math.isnan(got[f]) != (isinstance(exp, float) and math.isnan(exp))) or (not math.isnan(got[f]) and got[f] != exp):
-                bad.append(f"com {c.tolist()}: got {got[f]} expected {exp}")
+                bad.append(f"radii {r.tolist()} centres of mass {[c_.tolist() for c_ in coms]} frame {f}: got {got[f]} expected {exp}")
     return {"reproduced": bool(bad), "detail": str(bad[:3])}
 
 
